@@ -189,7 +189,7 @@ impl Property for C03 {
     }
     fn runs(&self, tier: Tier) -> u64 {
         match tier {
-            Tier::Quick => 96,
+            Tier::Quick => 128,
             Tier::Thorough => 4000,
         }
     }
